@@ -569,6 +569,9 @@ impl<'a> Runtime<'a> {
 
     #[inline]
     fn exec_block_with_flow(&mut self, block: BlockRef<'a>) -> Result<ExecFlow<'a>, RuntimeError> {
+        // Nested blocks recurse through exec_stmt without evaluating an expression,
+        // so the native-stack budget has to be probed here as well.
+        self.check_stack(block.span)?;
         self.push_scope_with_capacity(0, self.frame);
         self.hoist_block_functions(block);
         for stmt in block.stmts {
